@@ -25,6 +25,9 @@ CHECKS = {
     "C13": ("Hypothesis-generated tables (orientations near 0/pi, feature dtypes with nulls, precisions, suffixes) round-tripped through data frame / parquet / csv / to_file and compared with the original",
             "Generated-input exploration with a round-trip oracle: exact for data frames and Parquet, to the requested decimal precision for CSV; column order and suffix dispatch checked on the written bytes.",
             "strings that CSV type inference cannot distinguish (empty, numeric-looking, true/false, NaN) are excluded from the domain; dtype equality not asserted for CSV", "4/C13"),
+    "C04": ("Hypothesis-generated displaced copies (analytic Gaussian blobs / Fourier-shifted broadband texture) with planted displacement incl. boundary classes; oracle = planted d with the tolerances stated in the property",
+            "Generated-input exploration against planted ground truth: |shift-d| <= 0.1 px (ZNCC/NCC/PCC unmasked) or 0.5 px (FSC / masked), identity quaternion, superposition after shifting back, normalised score >= 0.9, via align and fit, with masks, cutoffs, tilt models and quaternions.",
+            "three recorded known findings (ZNCC/NCC fractional bias <= 0.15 px; ZNCC/NCC tilt bias <= 1 px; FSC tilt bias <= 0.75 px) are counted, not failed; FSC only on broadband templates; masks never cut the core of the displaced density; tilt half-widths >= 40 deg", "4/C04"),
 }
 
 NOT_YET = {}
